@@ -33,7 +33,7 @@ func c13Lexemes(ctx *Ctx, kind int) []lexeme {
 		switch c := r.Intn(12); {
 		case c == 0:
 			if kind == 1 {
-				lx = lexeme{pick("abc", "x1", "_y", "Zed", "é", "ñandú", "a日本", "q_9", "Añ", "ÿ", "Louÿs", "Àÿ", "aĀ", "e٣", "E５", "e", "Ex", "e_1", "a٣"), tokenizers.Word, "identifier"}
+				lx = lexeme{pick("abc", "x1", "_y", "Zed", "é", "ñandú", "a日本", "q_9", "Añ", "ÿ", "Louÿs", "Àÿ", "aĀ", "e٣", "E５", "e", "Ex", "e_1", "a٣", "LI\u212aE", "li\u212ae", "NUL\u0141", "aﬁ", "x\u212a"), tokenizers.Word, "identifier"}
 			} else {
 				lx = lexeme{pick("abc", "x1", "y_", "Zed", "é", "日本", "a-b", "ключ", "q_9", "ÿ", "Louÿs", "Àÿ", "Āa", "\ufffe", "٣x", "５m", "९", "e5", "E"), tokenizers.Word, "identifier"}
 			}
@@ -48,6 +48,9 @@ func c13Lexemes(ctx *Ctx, kind int) []lexeme {
 				}
 			}
 			lx = lexeme{sb.String(), tokenizers.Keyword, "keyword"}
+			if r.Intn(5) == 0 { // letters whose upper case is an ASCII letter: dotless i, long s
+				lx.text = pick("lıke", "LıKE", "iſ", "falſe", "Iſ", "lıKe", "Falſe") // (not at the start: in expressions an identifier starts with a Latin-1 letter)
+			}
 		case c == 2:
 			lx = lexeme{pick("0", "7", "42", "007", "1234567890"), tokenizers.Integer, "integer"}
 			if kind == 0 && r.Intn(3) == 0 {
